@@ -211,6 +211,22 @@ theorem sum_spec (bits : ℕ) (l : List (List ℕ)) (hl : ∀ x ∈ l, Canon bit
   rw [(zero_canon bits).2, Nat.zero_add] at this
   exact this
 
+/-! ## Tie to the source (G)
+
+The word primitives `carryingAdd` / `borrowingSub` used by the chains above are not hand-written:
+they are `Ruint.Gen.carrying_add` / `borrowing_sub`, regenerated from `src/algorithms/mod.rs` by
+`tools/rs2lean.py` on every run (file `Ruint/Gen/Words.lean`). The two theorems below re-prove their
+contract against what the source says now; every theorem of this file depends on them. -/
+
+theorem gen_carrying_add_spec (a b : ℕ) (c : Bool) (ha : a < W) (hb : b < W) :
+    (Ruint.Gen.carrying_add a b c).1 + W * (Ruint.Gen.carrying_add a b c).2.toNat = a + b + c.toNat
+    ∧ (Ruint.Gen.carrying_add a b c).1 < W := carryingAdd_spec a b c ha hb
+
+theorem gen_borrowing_sub_spec (a b : ℕ) (c : Bool) (ha : a < W) (hb : b < W) :
+    (Ruint.Gen.borrowing_sub a b c).1 + b + c.toNat
+      = a + W * (Ruint.Gen.borrowing_sub a b c).2.toNat
+    ∧ (Ruint.Gen.borrowing_sub a b c).1 < W := borrowingSub_spec a b c ha hb
+
 /-! Non-vacuity: concrete non-trivial instances (a carry chain through an all-ones limb into the
 masked top limb of a 65-bit value), evaluated by the kernel. -/
 example : Canon 65 [W - 1, 1] ∧ Canon 65 [1, 0] := by
